@@ -49,9 +49,14 @@ def env_offline():
     return e
 
 
-def run(cmd, cwd=None, env=None, timeout=None, stdin=None):
+def run(cmd, cwd=None, env=None, timeout=None, stdin=None, mem_gib=None):
+    pre = None
+    if mem_gib:
+        def pre():
+            import resource
+            resource.setrlimit(resource.RLIMIT_AS, (mem_gib << 30, mem_gib << 30))
     p = subprocess.run(cmd, cwd=cwd, env=env or env_offline(), stdin=stdin, stdout=subprocess.PIPE,
-                       stderr=subprocess.STDOUT, text=True, timeout=timeout)
+                       stderr=subprocess.STDOUT, text=True, timeout=timeout, preexec_fn=pre)
     return p.returncode, p.stdout
 
 
@@ -193,7 +198,8 @@ def run_harness(binary, cmd, outdir, args, timeout=7200):
             os.remove(os.path.join(outdir, f))
         except FileNotFoundError:
             pass
-    rc, out = run([binary, cmd, "--out", outdir] + args, timeout=timeout)
+    # 24 GiB of address space: a runaway allocation ends the harness process, not the machine
+    rc, out = run([binary, cmd, "--out", outdir] + args, timeout=timeout, mem_gib=24)
     rep = None
     try:
         rep = json.load(open(os.path.join(outdir, "report.json")))
